@@ -9,7 +9,8 @@ Void == <<"void">>
 \* comparison with the minimum (C15): 3.0.2 itself is supported, 3.0.1 is not, 3.0.10 and 10.0.0 are newer than 3.0.2, 2.10.9 is not
 VerGE(v, t) == v[1] > t[1] \/ (v[1] = t[1] /\ (v[2] > t[2] \/ (v[2] = t[2] /\ v[3] >= t[3])))
 DevVersions == [ebb_ok |-> <<3, 0, 3>>, ebb_late |-> <<3, 0, 3>>, ebb_old |-> <<2, 8, 1>>, ebb_min |-> <<3, 0, 2>>, ebb_below |-> <<3, 0, 1>>,
-                ebb_v3_0_10 |-> <<3, 0, 10>>, ebb_v10 |-> <<10, 0, 0>>, ebb_v2_10_9 |-> <<2, 10, 9>>]
+                ebb_v3_0_10 |-> <<3, 0, 10>>, ebb_v10 |-> <<10, 0, 0>>, ebb_v2_10_9 |-> <<2, 10, 9>>, ebb_late_old |-> <<2, 8, 1>>]
+Late(d) == d \in {"ebb_late", "ebb_late_old"}            \* answers only the second identification probe
 HasVersion(d) == d \in DOMAIN DevVersions
 SupportedDev(d, minver) == HasVersion(d) /\ VerGE(DevVersions[d], minver)
 NoneV == <<"none">>
